@@ -8,6 +8,10 @@ Value tokens are triples (k, p, b): key number, payload, kind. What Python
 value a triple stands for depends on the universe (`real_value`); the Lean
 driver's `mkCfg` gives the same universe its key function / as-key / hashable /
 type-check tables.
+
+The rich-type universes (`TAB`: item / key types Dict[str, Any], Tuple[..., Any], Union, Optional, Literal,
+bounded) use the driver's table-driven universe instead: the token itself carries the key code, the pool index
+and what the harness's reference checker `ref_conforms` says about the value (see the section "rich types").
 """
 import itertools
 import os
@@ -37,6 +41,7 @@ REQUIRED_THEOREMS = [
         "enforce_rejects_unchanged typed_rejects member_item_or_key lookup_sound lookup_complete lookup_absent discard_spec "
         "discard_unamb remove_spec remove_member remove_absent len_iter pop_spec clear_spec failed_step_unchanged "
         "ior_failure_prefix or_keys and_keys sub_keys sub_pyset_keys_partial sub_pyset_keys_full_fails le_keys "
+        "typed_second_generation construct_typed_survivors validateAll_ok_iff "
         "le_pyset_keys_partial eq_keys eq_pyset ior_keys isub_keys xor_keys probe_independent"
     ).split()
 ]
@@ -54,7 +59,20 @@ RULE = (
     "all ops + 3 sets of 2 items with a sample of the operand ops; thorough: N=2, all ops for N<=1 and all value ops + a third of "
     "the operand ops for N=2; operators and probes with an EMPTY operand of any kind or the receiver itself are never sampled "
     "away), rebinding ops followed by adds that probe key function/flag/type of the new set; then seeded "
-    "random sequences of <= 20 ops (quick 8000, thorough 20000). A step is non-trivial when it changed the "
+    "random sequences of <= 20 ops (quick 7000, thorough 20000; 30% of them in the rich-type universes). RICH TYPES: five "
+    "table-driven universes parameterised with KeyedSet[Dict[str, Any], str] (key d['id']), KeyedSet[Tuple[Any, int], "
+    "tuple[str, Any]] (composite key), KeyedSet[Tuple[Union[str, int], Optional[int]], Optional[str]], KeyedSet[Union[Literal, "
+    "Tuple[Literal]], Union[Literal, Tuple[Literal]]] (key x[:1]) and KeyedSet[bounded(int, ge=0, lt=40), bounded(float, ge=0, "
+    "lt=3)] (key x % 10); each pool has items wrong in ONE non-Any position (non-str dict key, wrong tuple element, wrong "
+    "length, value outside the literals / bounds incl. a bound of 0), items whose KEY is of the wrong type, both, list-for-"
+    "tuple, unkeyable values (TypeError / IndexError / KeyError from the key function) and keys as arguments; admissibility "
+    "is decided by the harness's own reference checker `ref_conforms` and handed to the model in the value tokens. "
+    "Generated: the constructor over every value alone / before / after a well-typed item (typed and untyped, both flags); "
+    "every single op (operands of <= 1 value, or a well-typed + an ill-typed one, as KeyedSet untyped/typed/enforcing, "
+    "built-in set, list) from the empty set, 2 one-item sets and a two-item set (thorough: all one-item sets + 4 two-item "
+    "sets), biased to the ops through which an ill-typed value could enter (add, |= ^=, | & - ^ and reflected, rebinding, "
+    "probes); every rebinding is followed by a SECOND-GENERATION tail (add good, add 2 ill-typed, |= [good, ill-typed], "
+    "rebind again, add ill-typed, reads). A step is non-trivial when it changed the "
     "set, raised, returned a non-empty set / a hit; distinct = distinct (universe, typed, enforce, pre-state, op)"
 )
 EXHAUSTIVE = {"quick": False, "thorough": False}
@@ -65,7 +83,11 @@ ASSUMPTIONS = [
     "hence every run and replay, is reproducible",
     "the iteration order of a built-in set operand is an input of the model (read from the actual set object)",
     "lookup = subscription s[x] (accepts item or key); get(key) is the dict-style accessor and takes keys only (its parameter is "
-    "named key); for an argument that is at once a present key and an item with a different present key (the ambiguity documented in the "
+    "named key); the parameterised constructor is judged on the set it builds (an ill-typed element replaced by a later "
+    "element of the same key is never in the set: theorem construct_typed_survivors; refusing it is accepted as well); "
+    "in the rich-type universes `conforms to T` is the structural conformance of the typing documentation as written in "
+    "`ref_conforms` (bool is an int, int is acceptable for float, Literal by equality and type), and the user's key "
+    "function is the definition of `key of an item`; for an argument that is at once a present key and an item with a different present key (the ambiguity documented in the "
     "class docstring) the model mirrors the code and neither the theorems nor the oracle prescribe a result",
     "set algebra on keys is claimed when the two operands agree on the items of their common keys, or the other operand is a KeyedSet "
     "that does not enforce equivalence; for `==` it is equality of the key->item maps (DESIGN.md 7 C14)",
@@ -82,6 +104,9 @@ OPEN_STATEMENTS = [
 ]
 
 UNIVERSES = ["self", "tuple", "spec", "unhash", "ambig", "bylen"]
+# sets parameterised with RICH types (table-driven universe `tab` of the driver): see the section "rich types" below
+TAB_UNIVERSES = ["rec", "pair", "opt", "lit", "bnd"]
+ALL_UNIVERSES = UNIVERSES + TAB_UNIVERSES
 _It = None
 _KeyedSet = None
 _BaseTypeError = None
@@ -95,7 +120,259 @@ def _kf_div(x):
     return x // 10
 
 
-KEYFN = {"self": None, "spec": None, "tuple": _kf_first, "unhash": _kf_first, "ambig": _kf_div, "bylen": len}
+def _kf_id(d):
+    return d["id"]
+
+
+def _kf_pair(x):
+    return (x[0], "v1")
+
+
+def _kf_head(x):
+    return x[:1]
+
+
+def _kf_mod(x):
+    return x % 10
+
+
+KEYFN = {"self": None, "spec": None, "tuple": _kf_first, "unhash": _kf_first, "ambig": _kf_div, "bylen": len,
+         "rec": _kf_id, "pair": _kf_pair, "opt": _kf_first, "lit": _kf_head, "bnd": _kf_mod}
+
+
+# ---------------------------------------------------------------------------
+# rich types: KeyedSet[T, K] with T / K a parameterised Dict / Tuple (with `Any` among the arguments), Union, Optional,
+# Literal, bounded(...). Types are written in a descriptor language of the harness; `build_type` turns a descriptor
+# into the typing object handed to KeyedSet[...], `ref_conforms` is the harness's own reference checker (structural
+# conformance written from the typing documentation; it never calls spec_classes.check_type). The model is told
+# through the value tokens what the reference checker says (see Drivers/C14.lean, universe `tab`).
+# ---------------------------------------------------------------------------
+
+# NOTE: the pools are APPEND-ONLY (harness/corpus/C14/*.json and replay files name values by their pool index).
+TAB = {
+    # records identified by their "id" entry
+    "rec": {
+        "T": ("dict", "str", "any"), "K": "str",
+        "pool": [
+            {"id": "a"}, {"id": "a", "n": 1}, {"id": "b", "n": [1, 2]}, {"id": "c", "n": None}, {"id": ""},
+            {"id": "", "n": 0},
+            {"id": "c", 404: "x"}, {"id": "a", 1: 2}, {"id": "b", ("t",): 0},  # not Dict[str, Any]: a non-str dict key
+            {"id": 7}, {"id": 0, "n": 1},  # Dict[str, Any], but the key of the item is not a str
+            {"id": 8, 9: 9},  # both wrong
+            ["id", "c"], "id", 5,  # the key function raises TypeError
+            {}, {"n": 1},  # the key function raises KeyError
+            "a", "b", "c", "", "zz", 7, 0, 8,  # keys used as arguments
+        ],
+    },
+    # composite keys: key = (item[0], "v1"); PEP 585 spelling of the key type
+    "pair": {
+        "T": ("tuple", "any", "int"), "K": ("tuple585", "str", "any"),
+        "pool": [
+            ("a", 1), ("a", 2), ("b", 1), ("c", 0), ("", 0), ("", 3),
+            ("a", "x"), ("b", None), ("a", 1, 2), ("c",),  # not Tuple[Any, int]: second element / length
+            ["a", 1],  # a list, not a tuple
+            (7, 1), (None, 2), (("a",), 1),  # Tuple[Any, int], but the key (7, "v1") is not a Tuple[str, Any]
+            (0, "x"),  # both wrong
+            (), [],  # IndexError
+            5, None,  # TypeError
+            ("a", "v1"), ("b", "v1"), ("c", "v1"), ("", "v1"), ("zz", "v1"), (7, "v1"), (None, "v1"), (("a",), "v1"),
+            (0, "v1"),
+        ],
+    },
+    # Tuple / Union / Optional
+    "opt": {
+        "T": ("tuple", ("union", "str", "int"), ("opt", "int")), "K": ("opt", "str"),
+        "pool": [
+            ("a", None), ("a", 1), ("b", None), ("c", 0), ("", 0), ("", None),
+            ("a", "x"), ("b", 1.5), ("a",), ("a", 1, 1), ("c", [1]),  # not T
+            ["a", 1],  # a list
+            (7, None), (0, 1),  # T, but the key is an int: not Optional[str]
+            (1.5, "x"),  # both wrong
+            (), [],  # IndexError
+            5,  # TypeError
+            "a", "b", "c", "", "zz", 7, 0, 1.5,
+        ],
+    },
+    # Literal item and key types; key = x[:1]
+    "lit": {
+        "T": ("union", ("lit", "a", "ab", "b", "", "cd"), ("tuple", ("lit", "a", "b"))),
+        "K": ("union", ("lit", "a", "b", ""), ("tuple", ("lit", "a"))),
+        "pool": [
+            "a", "ab", "b", "", ("a",),
+            "ac", "bb", "abc",  # not among the literals; key "a" / "b" is
+            "cd", ("b",),  # a literal item, but the key "c" / ("b",) is not among the key literals
+            "c", "d", ("c",), ("a", "a"),  # both wrong
+            5, None,  # TypeError
+        ],
+    },
+    # bounded numeric types; key = x % 10
+    "bnd": {
+        "T": ("bounded", "int", (("ge", 0), ("lt", 40))), "K": ("bounded", "float", (("ge", 0), ("lt", 3))),
+        "pool": [
+            0, 10, 20, 1, 11, 2, 32,
+            40, 41, 100, -9, -10,  # out of the item bounds; key 0 / 1 within the key bounds
+            3, 5, 39, 13,  # within the item bounds; key 3 / 5 / 9 out of the key bounds
+            -3, 45, 103,  # both wrong
+            "x", None, [1],  # TypeError
+            9, 7,
+        ],
+    },
+}
+
+
+def _canon(v):
+    """hashable identity of a pool value: equal AND of the same types all the way down (0 / 0.0 / False differ)"""
+    if isinstance(v, dict):
+        return ("d", frozenset((_canon(k), _canon(w)) for k, w in v.items()))
+    if isinstance(v, (list, tuple)):
+        return (type(v).__name__, tuple(_canon(w) for w in v))
+    return (type(v).__name__, v)
+
+
+def _fresh(v):
+    """a new object equal to v (containers rebuilt; str / int / None are immutable)"""
+    if isinstance(v, dict):
+        return {k: _fresh(w) for k, w in v.items()}
+    if isinstance(v, list):
+        return [_fresh(w) for w in v]
+    if isinstance(v, tuple) and v:
+        return tuple([_fresh(w) for w in v])
+    return v
+
+
+def ref_conforms(x, t):
+    """REFERENCE CHECKER: does the value x conform to the type descriptor t? (structural conformance as the typing
+    documentation defines it; bool is an int, an int is acceptable where a float is expected)"""
+    if t == "any":
+        return True
+    if t == "str":
+        return isinstance(x, str)
+    if t == "int":
+        return isinstance(x, int)
+    if t == "float":
+        return isinstance(x, (int, float))
+    if t == "none":
+        return x is None
+    tag = t[0]
+    if tag == "dict":
+        return isinstance(x, dict) and all(ref_conforms(k, t[1]) and ref_conforms(v, t[2]) for k, v in x.items())
+    if tag in ("tuple", "tuple585"):
+        return isinstance(x, tuple) and len(x) == len(t) - 1 and all(ref_conforms(e, a) for e, a in zip(x, t[1:]))
+    if tag == "tuplevar":
+        return isinstance(x, tuple) and all(ref_conforms(e, t[1]) for e in x)
+    if tag == "list":
+        return isinstance(x, list) and all(ref_conforms(e, t[1]) for e in x)
+    if tag == "union":
+        return any(ref_conforms(x, a) for a in t[1:])
+    if tag == "opt":
+        return x is None or ref_conforms(x, t[1])
+    if tag == "lit":
+        return any(type(x) is type(a) and x == a for a in t[1:])
+    if tag == "bounded":
+        if not ref_conforms(x, t[1]) or isinstance(x, bool):
+            return False
+        for kind, bound in t[2]:
+            if kind == "ge" and not x >= bound or kind == "gt" and not x > bound:
+                return False
+            if kind == "le" and not x <= bound or kind == "lt" and not x < bound:
+                return False
+        return True
+    raise ValueError(t)
+
+
+_BUILT = {}
+
+
+def build_type(t):
+    """descriptor -> the typing object given to KeyedSet[...]"""
+    import typing
+
+    from spec_classes.types.validated import bounded
+
+    key = repr(t)
+    if key in _BUILT:
+        return _BUILT[key]
+    if isinstance(t, str):
+        r = {"any": typing.Any, "str": str, "int": int, "float": float, "none": None}[t]
+    elif t[0] == "dict":
+        r = typing.Dict[build_type(t[1]), build_type(t[2])]
+    elif t[0] == "tuple":
+        r = typing.Tuple[tuple(build_type(a) for a in t[1:])]
+    elif t[0] == "tuple585":
+        r = tuple[tuple(build_type(a) for a in t[1:])]
+    elif t[0] == "tuplevar":
+        r = typing.Tuple[build_type(t[1]), ...]
+    elif t[0] == "list":
+        r = typing.List[build_type(t[1])]
+    elif t[0] == "union":
+        r = typing.Union[tuple(build_type(a) for a in t[1:])]
+    elif t[0] == "opt":
+        r = typing.Optional[build_type(t[1])]
+    elif t[0] == "lit":
+        r = typing.Literal[tuple(t[1:])]
+    elif t[0] == "bounded":
+        r = bounded(build_type(t[1]), **dict(t[2]))
+    else:
+        raise ValueError(t)
+    _BUILT[key] = r
+    return r
+
+
+_TABLE = {}  # universe -> {"pool": [...], "tok": [...]} (built lazily: hashing / keying the pool values)
+
+
+def tab(u):
+    if u in _TABLE:
+        return _TABLE[u]
+    spec = TAB[u]
+    pool, where = [], {}
+
+    def put(v):
+        if _canon(v) not in where:
+            where[_canon(v)] = len(pool)
+            pool.append(v)
+
+    def index(v):
+        return where.get(_canon(v))
+
+    for v in spec["pool"]:
+        put(v)
+
+    # the key of every keyed pool value is itself a pool value (so that it has a code and can be an argument)
+    for v in list(pool):
+        try:
+            k = KEYFN[u](v)
+            hash(k)
+        except Exception:
+            continue
+        put(k)
+    toks, codes = [], []
+    for i, v in enumerate(pool):
+        codes.append(6000 + 10 * i + (1 if ref_conforms(v, spec["K"]) else 0))
+    for i, v in enumerate(pool):
+        try:
+            k = KEYFN[u](v)
+            hash(k)
+            kc = codes[index(k)]
+        except IndexError:
+            kc = -2
+        except KeyError:
+            kc = -3
+        except TypeError:
+            kc = -1
+        b = (1 if ref_conforms(v, spec["T"]) else 0) + (2 if o_hashable(v) else 0) + (4 if codes[i] % 10 == 1 else 0)
+        toks.append((kc, i, b))
+    _TABLE[u] = {"pool": pool, "tok": toks, "codes": codes, "index": index}
+    return _TABLE[u]
+
+
+def tab_good(u):
+    """pool values that are keyed, conform to T and whose key conforms to K"""
+    return [t for t in tab(u)["tok"] if t[0] >= 0 and t[2] & 1 and t[0] % 10 == 1]
+
+
+def tab_other(u):
+    return [t for t in tab(u)["tok"] if not (t[0] >= 0 and t[2] & 1 and t[0] % 10 == 1)]
 
 
 def setup():
@@ -121,6 +398,8 @@ def setup():
     _KeyedSet = KeyedSet
     _BaseTypeError = BaseTypeError
     _TIMEOUTS[0] = 0
+    _SET_TYPES.clear()
+    _BUILT.clear()
     _sanity()
 
 
@@ -138,6 +417,8 @@ def real_value(u, v):
     v = tuple(v)
     k, p, b = v
     r = None
+    if u in TAB:
+        return _fresh(tab(u)["pool"][p])
     if u == "self":
         r = {0: lambda: f"k{k}", 1: lambda: k, 4: lambda: [f"k{k}"], 6: lambda: ""}[b]()
     elif u == "tuple":
@@ -163,6 +444,11 @@ def _strnum(s):
 
 def unreal(u, o):
     """Back from a Python value to its triple."""
+    if u in TAB:
+        i = tab(u)["index"](o)
+        if i is None:
+            raise ValueError(o)
+        return tab(u)["tok"][i]
     if u == "self":
         if o == "":
             return (0, 0, 6)
@@ -209,7 +495,12 @@ def unreal(u, o):
     raise ValueError(u)
 
 
-def enc_key(k):
+def enc_key(k, u=None):
+    if u in TAB:
+        i = tab(u)["index"](k)
+        if i is None:
+            raise ValueError(k)
+        return tab(u)["codes"][i]
     if isinstance(k, str):
         return 3000 if k == "k" else 3001 if k == "" else _strnum(k)
     if isinstance(k, int):
@@ -226,6 +517,8 @@ def good_values(u):
     """well-typed items; every universe has FALSY items and/or FALSY keys among them:
     self "" (item and key), tuple/unhash key "", spec key "" and every p=0 item (falsy via __bool__),
     ambig int 0 (item and key 0), bylen [] (item, key 0)"""
+    if u in TAB:
+        return tab_good(u)
     if u == "self":
         return [(k, 0, 0) for k in KEYS] + [(0, 0, 6)]
     if u == "ambig":
@@ -237,11 +530,15 @@ def good_values(u):
 
 def key_id(v):
     """identifies the key of a well-typed item token"""
+    if v[0] >= 6000:
+        return (v[0], "tab")
     return ("", 6) if v[2] == 6 else (v[0], 0)
 
 
 def other_values(u):
     """ill-typed items, keys used as arguments, unkeyable values, a value on which the key function raises IndexError"""
+    if u in TAB:
+        return tab_other(u)
     if u == "self":
         return [(0, 0, 1), (1, 0, 1), (0, 0, 4)]
     if u == "tuple":
@@ -267,7 +564,7 @@ def is_hashable_tok(u, v):
 
 def _sanity():
     """distinct triples <-> unequal Python values, and `unreal` inverts `real_value`."""
-    for u in UNIVERSES:
+    for u in ALL_UNIVERSES:
         vals = good_values(u) + other_values(u)
         objs = [real_value(u, v) for v in vals]
         for v, o in zip(vals, objs):
@@ -281,7 +578,18 @@ def _sanity():
 # ---------------------------------------------------------------------------
 
 
+_SET_TYPES = {}
+
+
 def set_type(u):
+    if u not in _SET_TYPES:
+        _SET_TYPES[u] = _set_type(u)
+    return _SET_TYPES[u]
+
+
+def _set_type(u):
+    if u in TAB:
+        return _KeyedSet[build_type(TAB[u]["T"]), build_type(TAB[u]["K"])]
     return {
         "self": _KeyedSet[str, str],
         "tuple": _KeyedSet[tuple, str],
@@ -315,7 +623,7 @@ def _catch():
 
 
 def show_dict(u, pairs):
-    return "{" + ",".join(f"{enc_key(k)}={tok(unreal(u, v))}" for k, v in pairs) + "}"
+    return "{" + ",".join(f"{enc_key(k, u)}={tok(unreal(u, v))}" for k, v in pairs) + "}"
 
 
 def show_ks(u, s):
@@ -543,7 +851,7 @@ def fmt(u, kind, payload):
     if kind == "items":
         return "items [" + ",".join(tok(unreal(u, x)) for x in payload) + "]"
     if kind == "keys":
-        return "keys [" + ",".join(str(enc_key(k)) for k in payload) + "]"
+        return "keys [" + ",".join(str(enc_key(k, u)) for k in payload) + "]"
     if kind == "pairs":
         return "pairs " + show_dict(u, payload)
     if kind == "set":
@@ -609,6 +917,8 @@ LISTED_BIN = {"or", "and", "sub", "xor"}
 
 def o_key(u, x):
     """the oracle's own statement of 'the key of an item' per universe; raises if x has none"""
+    if u in TAB:
+        return KEYFN[u](x)  # the user's key function IS the definition of the key in these universes
     if u in ("tuple", "unhash"):
         return x[0]
     if u == "ambig":
@@ -642,6 +952,8 @@ def o_keyraises(u, x):
 
 
 def o_welltyped(u, x):
+    if u in TAB:  # the reference checker, not spec_classes.check_type
+        return o_haskey(u, x) and ref_conforms(x, TAB[u]["T"]) and ref_conforms(o_key(u, x), TAB[u]["K"])
     T, K = {"self": (str, str), "tuple": (tuple, str), "spec": (_It, str), "unhash": (list, str), "ambig": (int, int),
             "bylen": (list, int)}[u]
     return isinstance(x, T) and not isinstance(x, bool) and o_haskey(u, x) and isinstance(o_key(u, x), K)
@@ -739,18 +1051,24 @@ def _oracle(case):
     viol = []
     ref = Ref(u, typed, enforce)
     init = [real_value(u, v) for v in case["init"]]
-    # construction = successive adds (typed construction may refuse with any TypeError-like class, at any point)
+    # construction = successive adds into a set that is given its type parameters afterwards: the constructed set is the
+    # mapping key -> last item, and it must not exist if an item has no key, if (enforce) two unequal items share a key, or
+    # if it would HOLD an ill-typed item / key. An ill-typed item that a later well-typed item of the same key replaces
+    # is never in the constructed set: refusing it (TypeError) and building the set without it are both accepted.
     exp_fail = None
     junk_init = any(o_keyraises(u, x) for x in init)
+    untyped_ref = Ref(u, False, enforce)
     for x in init:
-        e = Ref.add_expect(ref, x)
-        if typed and not o_welltyped(u, x):
-            exp_fail = {"TypeError"}
-            break
+        e = untyped_ref.add_expect(x)
         if e[0] == "raise":
             exp_fail = e[1]
             break
-        ref.d[e[1]] = x
+        untyped_ref.d[e[1]] = x
+    may_refuse = typed and any(not o_welltyped(u, x) for x in init)
+    if exp_fail is None and typed and any(not o_welltyped(u, x) for x in untyped_ref.d.values()):
+        exp_fail = {"TypeError"}
+    if exp_fail is None:
+        ref.d = dict(untyped_ref.d)
     try:
         s = make_set(u, typed, enforce, case["init"])
         if exp_fail is not None:
@@ -758,6 +1076,8 @@ def _oracle(case):
     except _catch() as e:
         if junk_init:
             pass  # the user key function raised: outside the property's universe
+        elif exp_fail is None and may_refuse and err_name(e) == "TypeError":
+            pass
         elif exp_fail is None:
             viol.append(f"construction from {case['init']} raised {err_name(e)}")
         elif err_name(e) not in exp_fail and not (typed and err_name(e) in ("TypeError", "ValueError")):
@@ -1237,14 +1557,14 @@ def random_op(u, rng):
 
 def random_case(u, rng, maxops):
     good, oth = good_values(u), other_values(u)
-    typed = rng.random() < 0.35
+    typed = rng.random() < (0.7 if u in TAB else 0.35)
     enforce = rng.random() < 0.5
     init = []
     for v in rng.sample(good, rng.randint(0, min(3, len(good)))):
         if key_id(v) not in {key_id(y) for y in init} or rng.random() < 0.15:
             init.append(list(v))
-    if rng.random() < 0.05:
-        init.append(list(rng.choice(oth)))
+    if rng.random() < (0.12 if u in TAB else 0.05):
+        init.insert(rng.randint(0, len(init)), list(rng.choice(oth)))
     ops = [random_op(u, rng) for _ in range(rng.randint(2, maxops))]
     return {"universe": u, "typed": typed, "enforce": enforce, "init": init, "ops": ops, "origin": "random"}
 
@@ -1255,7 +1575,7 @@ READS = [["keys"], ["items"]]
 def gen_cases(tier, rng):
     if tier == "search":
         while True:
-            yield random_case(rng.choice(UNIVERSES), rng, 10)
+            yield random_case(rng.choice(ALL_UNIVERSES), rng, 10)
         return
     thorough = tier == "thorough"
     for u in UNIVERSES:
@@ -1271,7 +1591,7 @@ def gen_cases(tier, rng):
                     ops = ops_all
                     if not thorough:
                         ops = [o for o in ops_all if _always(o)] + rng.sample(
-                            ops_all, min(len(ops_all), 300 if len(st) else 60)
+                            ops_all, min(len(ops_all), 200 if len(st) else 60)
                         )
                     elif len(st) == 2:
                         keep = max(1, len(ops_all) // 3)
@@ -1286,9 +1606,83 @@ def gen_cases(tier, rng):
                             "universe": u, "typed": typed, "enforce": enforce, "init": st,
                             "ops": [op] + tail, "origin": "exhaustive-single",
                         }
-    nrand = 20000 if thorough else 8000
+    yield from tab_cases(thorough, rng)
+    nrand = 20000 if thorough else NRAND_QUICK
     for _ in range(nrand):
-        yield random_case(rng.choice(UNIVERSES), rng, 20)
+        yield random_case(rng.choice(UNIVERSES if rng.random() < 0.7 else TAB_UNIVERSES), rng, 20)
+
+
+NRAND_QUICK = 7000
+
+
+def tab_keyed_bad(u):
+    """ill-typed values that HAVE a key (wrong item type, wrong key type, both): what a typed set must refuse"""
+    return [list(v) for v in tab_other(u) if v[0] >= 0]
+
+
+def tab_cases(thorough, rng):
+    """the rich-type universes (KeyedSet[Dict[str, Any], str], ...): every way an element can enter a parameterised
+    set -- constructor, add, |=, ^=, the results of | & - ^ (and reflected), and the SECOND generation (a set rebound to
+    an operator result must go on refusing ill-typed items / keys through add and |=)"""
+    for u in TAB_UNIVERSES:
+        good, oth = [list(v) for v in good_values(u)], [list(v) for v in other_values(u)]
+        bad = tab_keyed_bad(u)
+        singles = [[v] for v in good]
+        pairs = [[a, b] for a in good for b in good if key_id(a) != key_id(b)]
+        states = [[]] + singles + rng.sample(pairs, 4)
+        if not thorough:
+            states = [[]] + rng.sample(singles, 2) + rng.sample(pairs, 1)
+        # 1. the constructor
+        for typed in (True, False):
+            for enforce in (False, True):
+                for v in good + oth:
+                    for init in ([v], [good[0], v], [v, good[1]]):
+                        yield {"universe": u, "typed": typed, "enforce": enforce, "init": init, "ops": [["keys"]],
+                               "origin": "tab-construct"}
+        # 2. single operations; the other operand holds <= 1 value of the universe, or a well-typed and an ill-typed one
+        lists = [[]] + [[v] for v in good + oth] + [[good[0], b] for b in bad] + [[b, good[1]] for b in bad[:3]]
+        operands = operands_for(u, lists, kinds=("K00", "K01", "K10", "S", "L"))
+        ops_all = single_ops(u, operands)
+        typed_bad = [o for o in ops_all if _enters_bad(u, o, bad)]
+        for typed in (True, False):
+            for enforce in (False, True):
+                for st in states:
+                    if thorough and typed:
+                        ops = [o for o in ops_all if _always(o)] + rng.sample(typed_bad, len(typed_bad) // 3) + \
+                            rng.sample(ops_all, 400)
+                        if len(st) == 2:
+                            ops = [o for o in ops_all if _always(o)] + rng.sample(typed_bad, min(len(typed_bad), 500)) + \
+                                rng.sample(ops_all, 200)
+                    elif thorough:
+                        ops = rng.sample(ops_all, 200)
+                    elif typed:
+                        ops = [o for o in ops_all if _always(o)] + rng.sample(typed_bad, min(len(typed_bad), 160)) + \
+                            rng.sample(ops_all, 40)
+                    else:
+                        ops = rng.sample(ops_all, 25)
+                    for op in ops:
+                        tail = READS if op[0] in ("rebind", "inplace", "inplaceSelf", "probe") else []
+                        if op[0] == "rebind":
+                            # second generation: the rebound set keeps refusing ill-typed items and keys
+                            b2 = rng.sample(bad, min(3, len(bad)))
+                            tail = [["add", good[0]]] + [["add", b] for b in b2[:2]] + \
+                                [["inplace", "ior", ["L", [good[1], b2[-1]]]], ["rebind", rng.choice(BINS), ["L", [b2[0]]]],
+                                 ["add", b2[-1]]] + READS
+                        yield {"universe": u, "typed": typed, "enforce": enforce, "init": st, "ops": [op] + tail,
+                               "origin": "tab-single"}
+
+
+def _enters_bad(u, op, bad):
+    """ops through which an ill-typed (but keyed) value could enter the receiver or an operator result"""
+    if op[0] == "add":
+        return op[1] in bad
+    if op[0] in ("bin", "rbin", "rebind", "inplace"):
+        spec = op[2]
+    elif op[0] == "probe":
+        spec = op[3]
+    else:
+        return False
+    return spec[0] != "self" and any(list(v) in bad for v in spec[-1])
 
 
 def shrink(case, at=None):
@@ -1342,7 +1736,7 @@ def tags(case, real):
 
 
 MANIFEST_ENTRY = {
-    "level_text": "Lean 4 proof that the KeyedSet Impl model (insertion-ordered key->item dict, enforce flag, typed variant; add, discard, __contains__, __getitem__, get, keys, items, len, iter, __eq__ and every Set/MutableSet mixin of CPython 3.12 over them: | & - ^ and reflected, <= < >= > isdisjoint, |= &= -= ^=, remove, pop, clear, _from_iterable) behaves as a finite map key -> most recently added item under every operation sequence: unique keys and item-stored-under-its-own-key are invariants, add updates the map at the item's key, enforce rejects an unequal item with ValueError leaving the state unchanged, membership/lookup/discard/remove resolve an item or its key, len/iteration see one item per key, | & - ^ <= == |= -= compute union/intersection/difference/symmetric difference/inclusion/map equality on keys (for operands that agree on the items of common keys; against a built-in set provided the receiver's items are hashable — the full statement is refuted by a decided witness, open known finding unhashable_items_vs_builtin_set), results keep key function, flag and type parameters, a parameterised set never admits an ill-typed item or key (invariant over all op sequences incl. rebinding to operator results), and failing operations leave the state unchanged; for any value/key types, key function and type predicates. The model is tied to /repo on every run by executing the same operation sequences on spec_classes.types.KeyedSet and on the model (every single operation from every small set in 5 universes x typed x enforce, operands KeyedSet/built-in set/list on either side, then random sequences) and comparing result, exception class and contents after every step; an independent reference-dict oracle written from the property text judges every case.",
+    "level_text": "Lean 4 proof that the KeyedSet Impl model (insertion-ordered key->item dict, enforce flag, typed variant; add, discard, __contains__, __getitem__, get, keys, items, len, iter, __eq__ and every Set/MutableSet mixin of CPython 3.12 over them: | & - ^ and reflected, <= < >= > isdisjoint, |= &= -= ^=, remove, pop, clear, _from_iterable) behaves as a finite map key -> most recently added item under every operation sequence: unique keys and item-stored-under-its-own-key are invariants, add updates the map at the item's key, enforce rejects an unequal item with ValueError leaving the state unchanged, membership/lookup/discard/remove resolve an item or its key, len/iteration see one item per key, | & - ^ <= == |= -= compute union/intersection/difference/symmetric difference/inclusion/map equality on keys (for operands that agree on the items of common keys; against a built-in set provided the receiver's items are hashable — the full statement is refuted by a decided witness, open known finding unhashable_items_vs_builtin_set), results keep key function, flag and type parameters, a parameterised set never admits an ill-typed item or key (invariant over all op sequences incl. rebinding to operator results; second-generation sets keep the original type parameters; the parameterised constructor succeeds exactly when the unparameterised one does and every surviving item validates), and failing operations leave the state unchanged; for any value/key types, key function and type predicates. The model is tied to /repo on every run by executing the same operation sequences on spec_classes.types.KeyedSet and on the model (every single operation from every small set in 6 universes x typed x enforce, operands KeyedSet/built-in set/list on either side, 5 table-driven universes parameterised with Dict[str, Any] / Tuple[..., Any] / Union / Optional / Literal / bounded item and key types whose admissibility comes from an independent reference checker, incl. constructor and second-generation sets, then random sequences) and comparing result, exception class and contents after every step; an independent reference-dict oracle written from the property text judges every case.",
     "level_note": "Trusted: Lean kernel; axioms propext/Classical.choice/Quot.sound only; the hand-written model (incl. its transcription of CPython's _collections_abc Set/MutableSet mixins) and the correspondence harness; key functions pure; item equality structural and consistent with hash; iteration order of built-in set operands is an input. Key algebra is proved for operands that agree on common keys (or a non-enforcing KeyedSet operand); the documented key/item ambiguity is modelled and tied but not given set semantics. The theorems are about the model; the per-run correspondence is what ties them to the code.",
     "technique": "Lean 4 invariant + refinement (abstraction to a finite map) proof over a hand-written model; differential correspondence against the real KeyedSet; reference-dict oracle",
 }
